@@ -174,7 +174,10 @@ fn run(case: &Case, cx: &mut Cx) -> CaseResult {
             trace = base.backup_trace(sc.opts);
         }
     }
-    let keys: Vec<Logged> = if cx.tier == Tier::Quick { scen::thin(&trace, 60) } else { trace.clone() };
+    // (a basis reached by walking back over a wide id gap makes every run cost thousands of
+    // operations: such scenarios get fewer plans in the quick tier)
+    let long = trace.len() > 600;
+    let keys: Vec<Logged> = if cx.tier == Tier::Quick { scen::thin(&trace, if long { 12 } else { 60 }) } else { trace.clone() };
     let only: Option<serde_json::Value> = cx.only_inner.clone();
     let mut n = 0u32;
     let mut evals = 0u64;
@@ -201,7 +204,9 @@ fn run(case: &Case, cx: &mut Cx) -> CaseResult {
     // Two errors in a row: the operation, and whatever the code does next about it (a retry,
     // a clean-up, the next file), for every write of the trace and every pair of kinds.
     let writes: Vec<&Logged> = trace.iter().filter(|l| l.key.verb == V::Write).collect();
-    let writes = if cx.tier == Tier::Quick { scen::thin(&writes, 8) } else { scen::thin(&writes, 40) };
+    let writes = if cx.tier == Tier::Quick { scen::thin(&writes, if long { 2 } else { 8 }) } else { scen::thin(&writes, 40) };
+    let t_pairs = std::time::Instant::now();
+    let ev0 = evals;
     for l in writes {
         for k1 in EK::ALL {
             for k2 in EK::ALL {
@@ -221,6 +226,9 @@ fn run(case: &Case, cx: &mut Cx) -> CaseResult {
                 }
             }
         }
+    }
+    if std::env::var("VERIF_TIMING").is_ok() {
+        eprintln!("C04 timing: singles+pairs trace={} pairs {} evals in {:?}", trace.len(), evals - ev0, t_pairs.elapsed());
     }
     for plan in &case.multi {
         let m: BTreeMap<usize, EK> = plan
